@@ -414,8 +414,52 @@ def equal_pairs(case):
     return {"nontrivial": n > 0 or stats["block"] > 0, "classes": ["respelled-args:%d" % min(n, 3)], "key": text2, "sample": {"P": text, "P_relayout": text2}}
 
 
+# ------------------------------------------------------------------------------ header circuits
+# parse_jaqal_string_header accepts what the full parser refuses - more than one register - so
+# its circuits can hold a fundamental register and an alias OF THE SAME NAME in two programs.
+
+HEADER_PAIRS = [
+    ("register q[2]\nregister z[2]\n", "register z[2]\nmap q z\n"),
+    ("register q[2]\nregister z[2]\n", "register z[2]\nregister q[2]\n"),
+    ("register q[2]\n", "register z[2]\nmap q z[0:2]\n"),
+    ("let n 2\nregister q[n]\n", "let n 2\nregister z[n]\nmap q z\n"),
+    ("register q[1]\nmap s q[0]\n", "register s[1]\nmap q s\n"),
+    ("let a 1\nregister q[2]\n", "let a 1.0\nregister q[2]\n"),
+]
+
+
+def header_pairs(case):
+    from jaqalpaq.parser.parser import parse_jaqal_string_header
+
+    ta, tb = HEADER_PAIRS[case["i"]]
+    if case["swap"]:
+        ta, tb = tb, ta
+    st_, a = guard(parse_jaqal_string_header, ta, what="parse_jaqal_string_header")
+    st2, b = guard(parse_jaqal_string_header, tb, what="parse_jaqal_string_header")
+    if st_ == "err" or st2 == "err":
+        raise Skip()
+    ab, ba = a == b, b == a
+    if ab != ba:
+        raise Violation("not-symmetric", f"a == b is {ab}, b == a is {ba}\n--- a:\n{ta}\n--- b:\n{tb}", where="header-circuits")
+    if not (a == a) or not (b == b):
+        raise Violation("not-reflexive", f"{ta}\n{tb}", where="header-circuits")
+    # (the ORDER of declarations is not part of equality: the tables are compared as mappings)
+    da = {n_: (r_.fundamental if hasattr(r_, "fundamental") else None) for n_, r_ in a.registers.items()}
+    db = {n_: (r_.fundamental if hasattr(r_, "fundamental") else None) for n_, r_ in b.registers.items()}
+    if ab and da != db:
+        raise Violation("equal-circuits-differ", f"equal circuits, but one declares a register where the other declares an alias: {da} vs {db}\n--- a:\n{ta}\n--- b:\n{tb}", where="header-circuits")
+    return {"nontrivial": True, "classes": ["equal:%s" % ab], "key": repr(case), "sample": {"a": ta, "b": tb}}
+
+
+def _header_enum(tier):
+    for i in range(len(HEADER_PAIRS)):
+        for swap in (False, True):
+            yield {"i": i, "swap": swap}
+
+
 def parts():
     return [
         Part("single-site-mutants", mutant_cases(), mutants, quick=5000, thorough=120000, min_nontrivial=0.05),
         Part("equal-pairs", equal_cases(), equal_pairs, quick=1500, thorough=30000, min_nontrivial=0.2),
+        Part("header-circuits", None, header_pairs, quick=0, thorough=0, exhaustive=_header_enum, shards=1),
     ]
